@@ -17,6 +17,7 @@ from symx.core import rv, frac, prove, model_value
 from pySDC.core.collocation import CollBase
 
 PID = 'C05'
+BOUNDS = {'quick': dict(M='1..5', families=6, quad_types=4, intervals=5), 'thorough': dict(M='1..8', families=6, quad_types=4, intervals=7)}
 NODE_TYPES = ['LEGENDRE', 'EQUID', 'CHEBY-1', 'CHEBY-2', 'CHEBY-3', 'CHEBY-4']
 QUAD_TYPES = ['GAUSS', 'LOBATTO', 'RADAU-LEFT', 'RADAU-RIGHT']
 
